@@ -310,3 +310,158 @@ pub(crate) fn is_parked(v: &ThView) -> bool {
 pub(crate) fn has_token(v: &ThView) -> bool {
     v.st == (StView::Runnable { unparked: true })
 }
+
+// ================================================================================================
+// C08 / C05 / S.unpark: park token and unpark
+// ================================================================================================
+
+/// What `set_unparked` must do according to C08 ("resumes only after the matching unpark",
+/// "a notification issued before the wait is not lost").
+fn set_unparked_body(region: u8) {
+    let eid = execution::Id::new();
+    let mut t = any_thread(eid, 1);
+    let k: u8 = kani::any();
+    t.operation = if k == 0 { None } else { Some(crate::rt::object::verif_kani::op_opaque(0)) };
+    let o = th_view(&t);
+    kani::assume(!matches!(o.st, StView::Terminated | StView::Yield) || o.op.is_none());
+    let blocked_on_object = o.st == StView::Blocked && o.op.is_some();
+    let yielded = o.st == StView::Yield;
+    match region {
+        0 => kani::assume(!blocked_on_object && !yielded),
+        1 => kani::assume(blocked_on_object),
+        _ => kani::assume(yielded),
+    }
+    t.set_unparked();
+    let n = th_view(&t);
+    oblige!("C08.set_unparked.touches_only_the_scheduling_state", th_view_eq_except_state(&o, &n));
+    if is_parked(&o) {
+        oblige!("C08.set_unparked.wakes_a_parked_thread", n.st == (StView::Runnable { unparked: false }));
+    } else if matches!(o.st, StView::Runnable { .. }) {
+        oblige!("C08.set_unparked.stores_token_for_running_thread", n.st == (StView::Runnable { unparked: true }));
+    } else if o.st == StView::Terminated {
+        oblige!("C08.set_unparked.terminated_stays_terminated", n.st == StView::Terminated);
+    } else if blocked_on_object {
+        // C05/C08: unparking a thread that is blocked on a lock / join / channel must not wake it
+        oblige!("C05.unpark_elsewhere.thread_blocked_on_object_is_not_woken", n.st == StView::Blocked);
+    } else {
+        // yielded thread: the token must not be lost (it will run again anyway)
+        oblige!("C08.token_kept.unpark_of_yielded_thread", n.st == (StView::Runnable { unparked: true }));
+    }
+    std::mem::forget(t);
+    reach!("c08_set_unparked");
+}
+
+//@ props=C08,C05 tier=quick fns=src/rt/thread.rs::Thread::set_unparked
+#[kani::proof]
+#[kani::unwind(7)]
+#[kani::stub(std::hash::RandomState::new, fixed_random_state)]
+fn c08_set_unparked__outside() {
+    set_unparked_body(0);
+}
+
+//@ props=C08,C05 tier=quick fns=src/rt/thread.rs::Thread::set_unparked finding=F1c expect=C05.unpark_elsewhere.thread_blocked_on_object_is_not_woken
+#[kani::proof]
+#[kani::unwind(7)]
+#[kani::stub(std::hash::RandomState::new, fixed_random_state)]
+fn c08_set_unparked__inside_blocked_on_object() {
+    set_unparked_body(1);
+}
+
+//@ props=C08 tier=quick fns=src/rt/thread.rs::Thread::set_unparked finding=F1d expect=C08.token_kept.unpark_of_yielded_thread
+#[kani::proof]
+#[kani::unwind(7)]
+#[kani::stub(std::hash::RandomState::new, fixed_random_state)]
+fn c08_set_unparked__inside_yielded() {
+    set_unparked_body(2);
+}
+
+//@ props=C08,C04 tier=quick fns=src/rt/thread.rs::Set::unpark,src/rt/thread.rs::Thread::unpark,src/rt/thread.rs::Set::active2_mut bounded=threads:N=3 models=VersionVec::join=s_vv_models_agree
+#[kani::proof]
+#[kani::unwind(7)]
+#[kani::stub(std::hash::RandomState::new, fixed_random_state)]
+#[kani::stub(crate::rt::vv::VersionVec::join, crate::rt::vv::VersionVec::join_model)]
+fn c08_set_unpark_transfers_view() {
+    const N: usize = 3;
+    let mut set = any_set(N);
+    let old = set_view(&set);
+    let a = old.active.unwrap();
+    let target: usize = kani::any();
+    kani::assume(target < N);
+    // the scheduling-state part is c08_set_unparked's contract; here: the view transfer and the frame
+    let id = id_of(&set, target);
+    set.unpark(id);
+    let new = set_view(&set);
+    let oa = old.th[a]; // by value: never `&arr[sym].field` (CBMC 6.11, DESIGN §9)
+    let mut i = 0;
+    while i < N {
+        let (o, n) = (old.th[i], new.th[i]);
+        if i == target && i != a {
+            oblige!("S.unpark.target_acquires_exactly_unparkers_view",
+                is_join(&n.causality, &o.causality, &oa.causality) && vv_eq(&n.released, &o.released) && vv_eq(&n.dpor_vv, &o.dpor_vv) && n.op == o.op);
+        } else if i == target {
+            oblige!("S.unpark.self_unpark_transfers_nothing", vv_eq(&n.causality, &o.causality) && th_view_eq_except_state(&o, &n));
+        } else {
+            oblige!("S.unpark.frame_other_threads", th_view_eq(&o, &n));
+        }
+        i += 1;
+    }
+    oblige!("S.unpark.set_shape_unchanged", new.len == old.len && new.active == old.active && vv_eq(&new.seq_cst, &old.seq_cst));
+    reach!("c08_set_unpark");
+}
+
+//@ props=C18 tier=quick fns=src/rt/thread.rs::Thread::set_yield
+#[kani::proof]
+#[kani::unwind(7)]
+#[kani::stub(std::hash::RandomState::new, fixed_random_state)]
+fn c18_set_yield() {
+    let eid = execution::Id::new();
+    let i: usize = kani::any();
+    kani::assume(i < MAX_THREADS);
+    let mut t = any_thread(eid, i);
+    kani::assume(t.yield_count < usize::MAX);
+    let o = th_view(&t);
+    t.set_yield();
+    let n = th_view(&t);
+    oblige!("C18.set_yield.state_and_counters", n.st == StView::Yield && n.yield_count == o.yield_count + 1
+        && n.last_yield == Some(crate::rt::vv::verif_kani::get(&o.causality, i)));
+    oblige!("C18.set_yield.clocks_untouched", vv_eq(&n.causality, &o.causality) && vv_eq(&n.released, &o.released) && vv_eq(&n.dpor_vv, &o.dpor_vv) && n.op == o.op);
+    std::mem::forget(t);
+    reach!("c18_set_yield");
+}
+
+//@ props=C19,C04 tier=quick fns=src/rt/thread.rs::Set::new_thread,src/rt/thread.rs::Thread::new,src/rt/thread.rs::Set::max bounded=threads:N=3
+#[kani::proof]
+#[kani::unwind(7)]
+#[kani::stub(std::hash::RandomState::new, fixed_random_state)]
+fn c19_set_new_thread() {
+    const N: usize = 3;
+    let mut set = any_set_cap(N, 4);
+    let old = set_view(&set);
+    let id = set.new_thread();
+    let new = set_view(&set);
+    oblige!("S.newthread.id_is_previous_len", id.as_usize() == N && new.len == N + 1 && new.active == old.active);
+    let n = new.th[N];
+    oblige!("S.newthread.fresh_thread_state", n.st == (StView::Runnable { unparked: false }) && n.op.is_none() && !n.critical
+        && vv_eq(&n.causality, &zero_vv()) && vv_eq(&n.released, &zero_vv()) && vv_eq(&n.dpor_vv, &zero_vv())
+        && n.last_yield.is_none() && n.yield_count == 0 && locals_len(&set, N) == 0);
+    let mut i = 0;
+    while i < N {
+        oblige!("S.newthread.frame_existing_threads", th_view_eq(&old.th[i], &new.th[i]));
+        i += 1;
+    }
+    oblige!("S.newthread.preserves_wf_set", wf_set(&set));
+    reach!("c19_set_new_thread");
+}
+
+//@ props=C19 tier=quick fns=src/rt/thread.rs::Set::new_thread bounded=threads:N=3 expect_panic=self.threads.len()_<_self.max()
+#[kani::proof]
+#[kani::unwind(7)]
+#[kani::stub(std::hash::RandomState::new, fixed_random_state)]
+fn c19_set_new_thread_at_capacity_panics() {
+    // max_threads reached => the documented assertion fires (Kani reports the failed assert as a
+    // reachable failure of exactly that check; nothing after it may be reached)
+    let mut set = any_set_cap(3, 3);
+    kani::assume(set.max() == 3);
+    let _ = set.new_thread();
+    crate::must_not_reach!("C19.new_thread.returns_despite_max_threads");
+}
